@@ -7,6 +7,8 @@ mod interp;
 mod minimize;
 mod model;
 mod oracle;
+mod progen;
+mod execcheck;
 mod rng;
 mod selftest;
 mod spec;
@@ -297,6 +299,9 @@ pub fn run_seed_of(verif_seed: u64, id: &str, run_no: u64) -> u64 {
 
 fn gen_for(def: &CheckDef, verif_seed: u64, run_no: u64) -> Result<Scenario, String> {
     let run_seed = run_seed_of(verif_seed, def.id, run_no);
+    if def.profiles.is_empty() {
+        return execcheck::gen_exec_scenario(def.id, run_seed);
+    }
     let p = &def.profiles[(run_no % def.profiles.len() as u64) as usize];
     gen::gen_scenario(def.id, p, run_seed, def.reencode_tail)
 }
@@ -394,7 +399,7 @@ fn check_cmd(id: &str, tier: &str, verif_seed: u64) -> i32 {
                 continue;
             }
             let kf = known.iter().find(|k| {
-                k.property == id && k.status == "open" && k.signature == *sig && k.op_shape.as_ref().map_or(true, |s| *s == shape)
+                k.property == id && k.status == "open" && glob_match(&k.signature, sig) && k.op_shape.as_ref().map_or(true, |s| glob_match(s, &shape))
             });
             if let Some(k) = kf {
                 *known_hit.entry(format!("{} [{}] {}", k.signature, k.op_shape.clone().unwrap_or("*".into()), k.what)).or_default() += list.len() as u64;
@@ -528,7 +533,7 @@ fn write_evidence(
             "op_kinds_applied": st.op_kinds,
             "hash_seeds_per_scenario": hs,
             "hash_maps_created": st.hash_maps,
-            "profiles": def.profiles.iter().map(|p| p.name).collect::<Vec<_>>(),
+            "profiles": if def.profiles.is_empty() { vec![execcheck::exec_profile(id).name] } else { def.profiles.iter().map(|p| p.name).collect::<Vec<_>>() },
             "components": {
                 "real": ["wirm (all of /repo/src built from the current working tree with --cfg wirm_verif)", "wasmparser 0.235 / wasm-encoder 0.235 as linked by /repo", "kernel file errors for emit_wasm"],
                 "stub": ["hash keys (seeded seam)", "log sink (capturing logger)", "panic hook (silent, recording)"]
@@ -536,6 +541,7 @@ fn write_evidence(
             "known_findings_matched": known,
             "cross_property_observations": st.cross,
             "note": note,
+            "executed": if def.profiles.is_empty() { execcheck::stats_json() } else { serde_json::Value::Null },
         },
         "assumptions": [
             "wasmparser decodes and validates correctly",
@@ -664,6 +670,31 @@ fn main() {
     };
     let _ = std::io::stderr().flush();
     std::process::exit(code);
+}
+
+/// `*` matches any (possibly empty) run of characters; everything else is literal.
+pub fn glob_match(pat: &str, s: &str) -> bool {
+    let parts: Vec<&str> = pat.split('*').collect();
+    if parts.len() == 1 {
+        return pat == s;
+    }
+    let mut pos = 0usize;
+    for (i, p) in parts.iter().enumerate() {
+        if i == 0 {
+            if !s.starts_with(p) {
+                return false;
+            }
+            pos = p.len();
+        } else if i == parts.len() - 1 {
+            return s.len() >= pos + p.len() && s[pos..].ends_with(p);
+        } else {
+            match s[pos..].find(p) {
+                Some(k) => pos += k + p.len(),
+                None => return false,
+            }
+        }
+    }
+    true
 }
 
 pub fn sig_priority(kind: &str) -> u8 {
